@@ -1077,31 +1077,31 @@ pub fn text_family(kind: usize, len: usize) -> Vec<u8> {
             }
         }
         13 => {
-            // Fibonacci byte frequencies (1, 1, 2, 3, 5, ... ): the unrestricted Huffman tree of a block is
-            // deeper than the 15-bit limit, so the length-limiting paths of the tree predictor run
-            let mut counts: Vec<usize> = vec![1, 1];
-            while counts.len() < 24 {
+            // exact Fibonacci byte frequencies 1, 2, 3, 5, ..., 4181 (18 symbols, 10944 bytes) per section:
+            // the unrestricted Huffman tree of such a block is 17 deep, so the length-limiting paths
+            // (15-bit limit) of the Huffman length calculator and the tree predictor run
+            let mut counts: Vec<usize> = vec![1, 2];
+            while counts.len() < 18 {
                 let n = counts.len();
                 counts.push(counts[n - 1] + counts[n - 2]);
             }
-            let total: usize = counts.iter().sum();
-            let mut left = counts.clone();
-            let mut remaining = total;
-            while remaining > 0 && v.len() < len {
-                // deterministic interleaving proportional to the remaining counts
-                let mut pick = (next() as usize * 7919 + v.len()) % remaining;
-                for (sym, l) in left.iter_mut().enumerate() {
-                    if pick < *l {
-                        *l -= 1;
-                        remaining -= 1;
-                        v.push(0x30 + sym as u8);
-                        break;
-                    }
-                    pick -= *l;
-                }
-            }
+            let mut section = 0u8;
             while v.len() < len {
-                v.push(0x30 + 23);
+                let mut left = counts.clone();
+                let mut remaining: usize = left.iter().sum();
+                while remaining > 0 {
+                    let mut pick = (next() as usize * 7919 + remaining) % remaining;
+                    for (sym, l) in left.iter_mut().enumerate() {
+                        if pick < *l {
+                            *l -= 1;
+                            remaining -= 1;
+                            v.push(0x30 + section * 20 + sym as u8);
+                            break;
+                        }
+                        pick -= *l;
+                    }
+                }
+                section = (section + 1) % 8;
             }
         }
         10 => {
